@@ -386,6 +386,11 @@ def fix_outputs(case, drop=None):
     return case
 
 
+def has_unobserved_sink(case):
+    used = consumers(case)
+    return any(p not in used and p not in case["outputs"] for s in case["steps"] for p in s["outs"].values())
+
+
 def gen_tg_net(rng, big=False, fail_p=0.4, unequal_p=0.2, quirk_p=0.1, hold_p=0.5, drop_sink_p=0.0):
     """random DAG of tag-grouping steps (Transformer / ConditionalStep subclasses)"""
     nin = rng.choice([1, 1, 2, 2, 3])
@@ -434,6 +439,8 @@ def gen_tg_net(rng, big=False, fail_p=0.4, unequal_p=0.2, quirk_p=0.1, hold_p=0.
     elif xfs and rng.random() < 0.15:
         rng.choice(xfs)["hold"] = True
     fix_outputs(case, drop=rng.randrange(8) if rng.random() < drop_sink_p else None)
+    if has_unobserved_sink(case):
+        case["sink"] = True     # input class: some step output is neither consumed nor a workflow output
     return case
 
 
@@ -456,7 +463,12 @@ def gen_sg_net(rng, fail_p=0.3):
                   "i1": [["0", [rng.randrange(0, 30) for _ in range(m)]]]}
         steps.append({"n": "/sa", "k": "scatter", "ins": {"x": "i0"}, "outs": {"o": "ea", "__size__": "sza"}})
         steps.append({"n": "/sb", "k": "scatter", "ins": {"x": "i1"}, "outs": {"o": "eb", "__size__": "szb"}})
-        steps.append({"n": "/c", "k": fam, "ins": {"a": "ea", "b": "eb"}, "outs": {"a": "ca", "b": "cb"}})
+        # a transformer on each branch, so that one side of the combinator can lag behind the other
+        steps.append({"n": "/da", "k": "xf", "ins": {"x": "ea"}, "outs": {"o": "fa"}, "add": 0,
+                      "yields": rng.choice([0, 1, 3, 8, 25])})
+        steps.append({"n": "/db", "k": "xf", "ins": {"x": "eb"}, "outs": {"o": "fb"}, "add": 0,
+                      "yields": rng.choice([0, 1, 3, 8, 25])})
+        steps.append({"n": "/c", "k": fam, "ins": {"a": "fa", "b": "fb"}, "outs": {"a": "ca", "b": "cb"}})
         steps.append({"n": "/t", "k": "xf", "ins": {"a": "ca", "b": "cb"}, "outs": {"o": "r"},
                       "add": rng.randrange(0, 5), "yields": rng.choice([0, 1, 3])})
         steps.append({"n": "/za", "k": "xf", "ins": {"x": "sza"}, "outs": {"o": "qa"}})
